@@ -22,7 +22,10 @@ on the wire outranks every wildcarded one), and may go to the controller only wh
   part X  for every frame of the corpus, the near-collision variants and the boundary frames (mc/refs/refmatch.boundary_frames:
           type/length 0x05dc / 0x0600 / 0x0601, vid 0xfff, ToS 0xff, IHL 6 / 15, DF, fragment offsets 1 / 0x1fff, ports 0 / 65535,
           ARP opcode 255 / 256 ...): a match on each single field and the exact match, plus matches on the constants themselves,
-          each probed with ALL frames
+          each probed with ALL frames; every corpus frame also CUT at each header boundary -1/+0/+1 (802.3 frames at every
+          length from no payload to past the SNAP header): probed with the matches of the parent frame, of its own still
+          readable fields, the constants and the catch-all - only matches whose participating fields lie in headers the cut
+          frame still has completely are asserted (a runt 802.3 frame is dl_type 0x05ff)
   part O  packet OBJECTS assembled with the pox.lib.packet constructors (never parsed), own / no / new VLAN tag, handed to
           rx_packet: looked up like their packed bytes and like the reference says for those bytes
 """
@@ -291,6 +294,12 @@ def widen (mbytes, fields_to_wildcard):
   return W.match(wildcards=w, **pm)
 
 
+def key_frame (fr):
+  """Frame name as used in violation keys: all cuts of one frame share a name (the length is in the replay)."""
+  i = fr.name.find("[:")
+  return fr.name if i < 0 else fr.name[:i] + "[cut]"
+
+
 class Checker (object):
   def __init__ (self, rep, frames=None):
     self.rep = rep
@@ -345,6 +354,7 @@ class Checker (object):
       sw.reset(); return
     redo = []
     for fr in probes:
+      if fr.defined is not None and not set(m) <= fr.defined: continue      # the match looks at a header this frame was cut in
       fields, app = self.ext[fr.name]
       want = ref_matches(m, fields)
       got = sw.probe(fr.data, fr.in_port)
@@ -397,12 +407,12 @@ class Checker (object):
                     "packet-in; zeroing those bits on the wire makes the switch match" % (desc, ",".join(hb)))
       if not (c_ign or c_hb):
         f = self.blame(mbytes, pm, m, fr)
-        self.report(mbytes, fr, "match:false-miss:frame=%s:field=%s" % (fr.name, f),
+        self.report(mbytes, fr, "match:false-miss:frame=%s:field=%s" % (key_frame(fr), f),
                     "%s: every participating field equals the frame's, switch sent a packet-in; wildcarding %s makes it match "
                     "(frame carries %s=%r)" % (desc, f, f, fields.get(f)))
     else:
       d = [f for f in FIELDS if f in m and differs(pm, f, fields, app)] or ["unknown"]
-      self.report(mbytes, fr, "match:false-hit:frame=%s:field=%s" % (fr.name, d[0]),
+      self.report(mbytes, fr, "match:false-hit:frame=%s:field=%s" % (key_frame(fr), d[0]),
                   "%s: %s differ(s) from the frame (frame %s=%r, match %r) yet the switch forwarded it"
                   % (desc, ",".join(d), d[0], fields.get(d[0]), pm.get(d[0])))
 
@@ -883,17 +893,24 @@ def _work_x (item):
   boot()
   _, names = item
   frames = all_frames()
-  ck = Checker(Report(PID, "model_checking"), frames)
+  cuts = R.truncations()
+  ck = Checker(Report(PID, "model_checking"), frames + cuts)
   seen = set()
   for base in frames:
     if base.name not in names: continue
+    mine = [t for t in cuts if t.name.startswith(base.name + "[:")]
     fields, app = ck.ext[base.name]
     for f, mb in object_matches(fields, app):
       if mb in seen: continue
       seen.add(mb)
-      ck.check_match(mb, [base] + [x for x in frames if x is not base])
+      ck.check_match(mb, [base] + [x for x in frames if x is not base] + mine)
+    for t in mine:
+      # the cut frame's own fields: only those the specification still defines for it
+      fields, app = ck.ext[t.name]
+      for f, mb in object_matches(fields, app & t.defined)[:-1] + [("all", W.match())]:
+        ck.check_match(mb, [t, base])
   if "" in names:
-    for f, mb in constant_matches(): ck.check_match(mb, frames)
+    for f, mb in constant_matches(): ck.check_match(mb, frames + cuts)
   return _finish(ck)
 
 
@@ -961,7 +978,9 @@ def run (cfg):
     "assembled from pox.lib.packet constructors with tag in %s, handed to rx_packet as an object and as its packed bytes, against a match "
     "on each single field (frame's value / differing value, prerequisites specified) and the exact match.  X: the same single-field and "
     "exact matches for each of %d frames (corpus, variants and %d boundary frames: %s) plus %d matches on the constants of the extraction "
-    "rules, each probed with all %d frames.  distinct = (frame, participating field set, observation) for A/P, "
+    "rules, each probed with all %d frames; plus %d cut frames (every corpus frame and eth-0600/vlan-0600/len-05dc-snap/ip-hl6 cut at each "
+    "header boundary -1/+0/+1, 802.3 frames at every length 14..23) probed with their parent's matches, the matches on their own readable "
+    "fields, the constants and the catch-all, asserting only matches whose participating fields lie in completely present headers.  distinct = (frame, participating field set, observation) for A/P, "
     "(frame, allowed entries, entry that forwarded) for B, (previous frame, frame, observation) and (frame, actions, allowed, observed) for H, "
     "(frame, tag, field, observation of object, of bytes) for O"
     % (len(frames), ", ".join(f.name for f in frames), a_rule, p_rule, len(COUNTERS) ** 2, list(COUNTERS),
@@ -970,7 +989,7 @@ def run (cfg):
        cfg.pick(2, 3), len(history_tables(thorough)), len(history_frames()), ", ".join(f.name for f in R.near_collisions()),
        "; for tables of <=2 entries also a de Bruijn history containing every ordered triple of frames" if thorough else "",
        len(VLAN_ACTIONS), list(TAGS), len(all_frames()), len(R.boundary_frames()), ", ".join(f.name for f in R.boundary_frames()),
-       len(constant_matches()), len(all_frames())))
+       len(constant_matches()), len(all_frames()), len(R.truncations())))
   rep.bound = dict(wildcard_bit_words=1024, counter_pairs_A=ncp, counter_pairs_P=len(COUNTERS) ** 2, deviations=cfg.pick(1, 2),
                    frames=len(frames), table_entries=depth, lookup_alphabet=len(kinds),
                    history_tables=len(history_tables(thorough)), history_frames=len(history_frames()), history_adjacent=cfg.pick(2, 3))
@@ -1016,7 +1035,7 @@ def replay (cfg, data):
     for k, v in sorted(rep.violations.items()):
       lines.append("%s: %s" % (k, v["what"]))
     return bool(rep.violations), "\n".join(lines)
-  frames = dict((f.name, f) for f in all_frames())
+  frames = dict((f.name, f) for f in all_frames() + R.truncations())
   fr = frames[data["frame"]]
   if data["kind"] == "object":
     tag = data["tag"] if isinstance(data["tag"], str) else tuple(data["tag"])
@@ -1040,7 +1059,7 @@ def replay (cfg, data):
            "  fields per specification: " + ", ".join("%s=%s" % (f, fields[f].hex() if isinstance(fields[f], bytes) else hex(fields[f]))
                                                      for f in FIELDS if f in app)]
   if data["kind"] == "match":
-    ck = Checker(rep, all_frames())
+    ck = Checker(rep, all_frames() + R.truncations())
     mb = bytes.fromhex(data["match"])
     pm = W.parse_match(mb); m = ref_match(pm)
     lines.append("match on the wire: wildcards=%#x %s" % (pm["wildcards"], ", ".join(
